@@ -35,9 +35,12 @@
 //! uncompressed wire RDATA against the reference encoding written by the
 //! harness / by `rgen` from the RFC layouts; and then end of file.
 //!
-//! One signature per (type, field-or-owner, octet class, display kind); the
-//! `values` sweep, which has no field/octet focus, uses the outcome (reader
-//! message) in place of the octet class; panics are always set apart.
+//! Signatures: a failure explained by one of the known root causes (decided
+//! by `root_cause` from the probe's focus and the reference RDATA only) gets
+//! that cause's single signature, independent of type / field / kind. Any
+//! other failure gets `C06|type|field-or-owner|octet class|display kind`;
+//! the `values` sweep, which has no field/octet focus, uses the outcome
+//! (reader message) in place of the octet class; panics are always set apart.
 //! Combinations of hostile octets are attributed to the first octet whose
 //! class already fails alone for the same field and kind.
 
@@ -248,6 +251,142 @@ fn judge(rec: &Rec, refwire: &[u8], first: First, second: Option<Second>) -> Opt
 }
 
 // ===================================================================
+// Root causes (one signature each)
+// ===================================================================
+
+/// Octet classes the label writer is known not to escape although the
+/// reader (RFC 1035 section 5.1) gives them a special meaning.
+const LABEL_SPECIAL: [&str; 6] = ["dquote", "semicolon", "lparen", "rparen", "dollar", "at"];
+
+/// Splits SVCB/HTTPS reference RDATA into its parameters.
+fn svcb_params(wire: &[u8]) -> Option<Vec<(u16, &[u8])>> {
+    let mut p = 2usize;
+    loop {
+        let l = *wire.get(p)? as usize;
+        p += 1;
+        if l == 0 {
+            break;
+        }
+        p += l;
+    }
+    let mut out = Vec::new();
+    while p < wire.len() {
+        let key = u16::from_be_bytes([*wire.get(p)?, *wire.get(p + 1)?]);
+        let len = u16::from_be_bytes([*wire.get(p + 2)?, *wire.get(p + 3)?]) as usize;
+        let v = wire.get(p + 4..p + 4 + len)?;
+        out.push((key, v));
+        p += 4 + len;
+    }
+    Some(out)
+}
+
+/// The known root cause that explains a failing case, decided from the
+/// probe's focus and from the reference RDATA alone (never from the
+/// library's output). `None`: not one of the known causes.
+fn root_cause(focus: &Focus, is_name: bool, rec: &Rec, wire: &[u8]) -> Option<String> {
+    if is_name && LABEL_SPECIAL.contains(&focus.oct.as_str()) {
+        return Some(format!("name-field|label-writer-does-not-escape|{}", focus.oct));
+    }
+    match rec.data().rtype().to_int() {
+        64 | 65 => {
+            let ps = svcb_params(wire)?;
+            let get = |k: u16| ps.iter().find(|(key, _)| *key == k).map(|(_, v)| *v);
+            let mut alpn_ids: Vec<&[u8]> = Vec::new();
+            // the list-valued parameters all print nothing when empty
+            if [0u16, 1, 4, 6, 9].iter().any(|k| get(*k).map(|v| v.is_empty()).unwrap_or(false)) {
+                return Some("SVCB|empty-value-list|writer-prints-nothing(no-presentation-form)".into());
+            }
+            if let Some(mut v) = get(1) {
+                while !v.is_empty() {
+                    let l = v[0] as usize;
+                    if v.len() < 1 + l {
+                        break;
+                    }
+                    alpn_ids.push(&v[1..1 + l]);
+                    v = &v[1 + l..];
+                }
+            }
+            if alpn_ids.iter().any(|i| i.is_empty()) {
+                return Some("SVCB|alpn|empty-id-has-no-presentation-form".into());
+            }
+            if alpn_ids.iter().any(|i| i.iter().any(|b| *b == b',' || *b == b'\\')) {
+                return Some("SVCB|alpn|comma-or-backslash-in-id-needs-escapes-the-reader-refuses".into());
+            }
+            if let Some(m) = get(0) {
+                if m.chunks(2).any(|k| k.len() == 2 && get(u16::from_be_bytes([k[0], k[1]])).is_none()) {
+                    return Some("SVCB|mandatory|lists-a-key-that-is-absent(reader-rejects-per-RFC-9460)".into());
+                }
+            }
+            if get(5).map(|v| v.is_empty()).unwrap_or(false) {
+                return Some("SVCB|ech|empty-value-has-no-presentation-form".into());
+            }
+            let special = |b: &u8| !(0x21..=0x7E).contains(b) || matches!(*b, b'"' | b'(' | b')' | b';');
+            if alpn_ids.iter().any(|i| i.iter().any(special)) {
+                return Some("SVCB|alpn|writer-does-not-escape".into());
+            }
+            if get(7).map(|v| std::str::from_utf8(v).is_err()).unwrap_or(false) {
+                return Some("SVCB|dohpath|value-is-not-UTF-8(reader-rejects-per-RFC-9461)".into());
+            }
+            if get(7).map(|v| v.iter().any(|b| special(b) || *b == b'\\')).unwrap_or(false) {
+                return Some("SVCB|dohpath|writer-does-not-escape".into());
+            }
+            if ps.iter().any(|(k, v)| *k >= 10 && v.iter().any(|b| *b == b'(' || *b == b')')) {
+                return Some("SVCB|unknown-param|writer-does-not-escape-parentheses".into());
+            }
+            if get(2).is_some() {
+                return Some("SVCB|no-default-alpn|writer-spells-it-nodefaultalpn".into());
+            }
+            if ps.iter().any(|(k, _)| *k >= 10 && k.to_string().contains('9')) {
+                return Some("SVCB|param-key|reader-key-charset-excludes-9-and-z".into());
+            }
+            None
+        }
+        45 => {
+            let (gt, alg) = (*wire.get(1)?, *wire.get(2)?);
+            let gwlen = match gt {
+                0 => 0,
+                1 => 4,
+                2 => 16,
+                3 => {
+                    let mut p = 3usize;
+                    loop {
+                        let l = *wire.get(p)? as usize;
+                        p += 1;
+                        if l == 0 {
+                            break;
+                        }
+                        p += l;
+                    }
+                    p - 3
+                }
+                _ => return None,
+            };
+            if wire.len() == 3 + gwlen && alg != 0 {
+                return Some("IPSECKEY|empty-key-with-algorithm|no-presentation-form(reader-rejects-per-RFC-4025)".into());
+            }
+            if gt == 0 {
+                return Some("IPSECKEY|gateway-none|writer-omits-the-dot".into());
+            }
+            None
+        }
+        257 => {
+            if *wire.get(1)? == 0 {
+                return Some("CAA|empty-tag|no-presentation-form".into());
+            }
+            None
+        }
+        50 => {
+            let sl = *wire.get(4)? as usize;
+            if *wire.get(5 + sl)? == 0 {
+                return Some("NSEC3|empty-next-hashed-owner|no-presentation-form".into());
+            }
+            None
+        }
+        _ => None,
+    }
+}
+
+// ===================================================================
 // Collecting
 // ===================================================================
 
@@ -286,6 +425,8 @@ struct CaseMeta<'a> {
     focus: &'a Focus,
     /// include the detail class (error message) in the signature
     sig_detail: bool,
+    /// the probed field is a domain name (written by the label writer)
+    is_name: bool,
     note: &'a str,
 }
 
@@ -327,10 +468,17 @@ impl Collector {
             Some((coarse, detail, human)) => {
                 lc.inc(format!("{}:{}:fail", m.sweep, kname));
                 lc.inc(format!("outcome:{}:{}", if kind < GATED_KINDS { "gated" } else { "plain-display" }, coarse));
-                // (type, field-or-owner, octet class, display kind) is ONE
-                // class; the value sweep has no field/octet class and uses
-                // the outcome detail instead; panics are always set apart.
-                let mut sig = if m.sig_detail {
+                // A failure explained by one of the known root causes gets
+                // that cause's signature (one per cause, independent of
+                // type / field / kind). Anything else: (type, field-or-owner,
+                // octet class, display kind) is ONE class; the value sweep
+                // has no field/octet class and uses the outcome detail
+                // instead; panics are always set apart.
+                let is_name = m.is_name || (m.focus.ty == "owner" && m.focus.field == "label");
+                let cause = if kind < GATED_KINDS && !coarse.ends_with("panic") { root_cause(m.focus, is_name, rec, refwire) } else { None };
+                let mut sig = if let Some(c) = cause {
+                    format!("C06|{c}")
+                } else if m.sig_detail {
                     format!("C06|{}|{}|{}|{}", m.focus.ty, m.focus.field, if detail.is_empty() { coarse.to_string() } else { format!("{coarse}:{detail}") }, kname)
                 } else {
                     format!("C06|{}|{}|{}|{}", m.focus.ty, m.focus.field, m.focus.oct, kname)
@@ -348,7 +496,7 @@ impl Collector {
                     }
                     return false;
                 }
-                let key = (text.len(), format!("{}\u{0}{}\u{0}{}", text, origin as u8, m.note));
+                let key = (text.len(), format!("{}\u{0}{}\u{0}{}\u{0}{}", kind, text, origin as u8, m.note));
                 let mut g = self.fails.lock().unwrap();
                 let better = match g.get(&sig) {
                     None => true,
@@ -751,7 +899,7 @@ fn sweep_values(col: &Collector, tier: GTier) {
                 };
                 lc.inc(format!("values:{}:generated", g.mnemonic));
                 let note = format!("value {}", v.desc);
-                let m = CaseMeta { sweep: "values", focus: &focus, sig_detail: true, note: &note };
+                let m = CaseMeta { sweep: "values", focus: &focus, sig_detail: true, is_name: false, note: &note };
                 let rec0 = Record::new(env0.0.clone(), env0.1, Ttl::from_secs(env0.2), z);
                 let mut ok0 = [true; 4];
                 for k in KIND_RANGE {
@@ -760,7 +908,7 @@ fn sweep_values(col: &Collector, tier: GTier) {
                 let z = rec0.into_data();
                 let rec1 = Record::new(env1.0.clone(), env1.1, Ttl::from_secs(env1.2), z);
                 let f1 = Focus::new(g.mnemonic, "value+long-owner/CH/maxttl", "-");
-                let m1 = CaseMeta { sweep: "values-env1", focus: &f1, sig_detail: true, note: &note };
+                let m1 = CaseMeta { sweep: "values-env1", focus: &f1, sig_detail: true, is_name: false, note: &note };
                 for k in KIND_RANGE {
                     if ok0[k] {
                         col.case(&mut lc, &m1, &rec1, &v.wire, k, true);
@@ -818,14 +966,14 @@ fn sweep_envelope(col: &Collector, thorough: bool) {
         classes.retain(|c| {
             let f = Focus::new("class", &c.to_string(), "-");
             let note = format!("class {c} on {}", v0.desc);
-            let m = CaseMeta { sweep: "envelope-class", focus: &f, sig_detail: true, note: &note };
+            let m = CaseMeta { sweep: "envelope-class", focus: &f, sig_detail: true, is_name: false, note: &note };
             let rec = Record::new(base_owner.clone(), *c, Ttl::from_secs(3600), z0.clone());
             (0..GATED_KINDS).fold(true, |ok, k| col.case(&mut lc, &m, &rec, &v0.wire, k, false) && ok)
         });
         ttls.retain(|t| {
             let f = Focus::new("ttl", &t.to_string(), "-");
             let note = format!("TTL {t} on {}", v0.desc);
-            let m = CaseMeta { sweep: "envelope-ttl", focus: &f, sig_detail: true, note: &note };
+            let m = CaseMeta { sweep: "envelope-ttl", focus: &f, sig_detail: true, is_name: false, note: &note };
             let rec = Record::new(base_owner.clone(), Class::IN, Ttl::from_secs(*t), z0.clone());
             (0..GATED_KINDS).fold(true, |ok, k| col.case(&mut lc, &m, &rec, &v0.wire, k, false) && ok)
         });
@@ -840,7 +988,7 @@ fn sweep_envelope(col: &Collector, thorough: bool) {
             let mut lc = Local::default();
             let fv = Focus::new(v.mnemonic, "value", "-");
             let note = format!("compact value {}", v.desc);
-            let m = CaseMeta { sweep: "envelope-baseline", focus: &fv, sig_detail: true, note: &note };
+            let m = CaseMeta { sweep: "envelope-baseline", focus: &fv, sig_detail: true, is_name: false, note: &note };
             let rec = Record::new(base_owner.clone(), Class::IN, Ttl::from_secs(3600), z.clone());
             let mut ok = [true; 4];
             for k in KIND_RANGE {
@@ -880,7 +1028,7 @@ fn sweep_envelope(col: &Collector, thorough: bool) {
                         Some(p) => Focus::new("owner", "label", &attribute(col, "owner", "label", p, k)),
                         None => o.focus.clone(),
                     };
-                    let m = CaseMeta { sweep: "envelope-owners", focus: &focus, sig_detail: false, note: &note };
+                    let m = CaseMeta { sweep: "envelope-owners", focus: &focus, sig_detail: false, is_name: false, note: &note };
                     for origin in [false, true] {
                         let ok = col.case(&mut lc, &m, &rec, &v.wire, k, origin);
                         if !ok && phase_single {
@@ -903,7 +1051,7 @@ fn sweep_envelope(col: &Collector, thorough: bool) {
             for &ttl in &ttls {
                 let rec = Record::new(o.name.clone(), class, Ttl::from_secs(ttl), z.clone());
                 let note = format!("{}, class {class}, TTL {ttl}, data {}", o.desc, v.desc);
-                let m = CaseMeta { sweep: "envelope", focus: &o.focus, sig_detail: false, note: &note };
+                let m = CaseMeta { sweep: "envelope", focus: &o.focus, sig_detail: false, is_name: false, note: &note };
                 for k in KIND_RANGE {
                     if !baseline[vi][k] {
                         lc.add("envelope:skipped-baseline-fails".into(), 2);
@@ -959,7 +1107,7 @@ fn sweep_fields(col: &Collector, thorough: bool) {
                         let oct = attribute(col, d.ty, d.field, &p, k);
                         let focus = Focus::new(d.ty, d.field, &oct);
                         let note = format!("{} {} = {} ({}, {}) {}", d.ty, d.field, hex(&p.bytes), p.oct, p.pos, vdesc);
-                        let m = CaseMeta { sweep: "fields", focus: &focus, sig_detail: false, note: &note };
+                        let m = CaseMeta { sweep: "fields", focus: &focus, sig_detail: false, is_name: d.fk == FK::Name, note: &note };
                         for origin in [false, true] {
                             let ok = col.case(&mut lc, &m, &rec, &wire, k, origin);
                             if !ok && p.single {
@@ -1002,7 +1150,7 @@ fn sweep_binary(col: &Collector, thorough: bool) {
                 lc.inc(format!("binary:{}.{}:values", d.ty, d.field));
                 let focus = Focus::new(d.ty, d.field, if n == 0 { "empty" } else { "binary" });
                 let note = format!("{} {} of {} octets ({})", d.ty, d.field, n, pname);
-                let m = CaseMeta { sweep: "binary", focus: &focus, sig_detail: false, note: &note };
+                let m = CaseMeta { sweep: "binary", focus: &focus, sig_detail: false, is_name: false, note: &note };
                 let rec = Record::new(owner.clone(), Class::IN, Ttl::from_secs(3600), z);
                 for k in KIND_RANGE {
                     for origin in [false, true] {
@@ -1043,7 +1191,7 @@ fn sweep_codes(col: &Collector, thorough: bool) {
             let tn = Rtype::from_int(t).to_string();
             let focus = Focus::new("rtype", "generic-form", if tn.starts_with("TYPE") { "TYPEnnn" } else { &tn });
             let note = format!("type {t} with RFC 3597 generic data");
-            let m = CaseMeta { sweep: "codes-rtype", focus: &focus, sig_detail: false, note: &note };
+            let m = CaseMeta { sweep: "codes-rtype", focus: &focus, sig_detail: false, is_name: false, note: &note };
             for k in KIND_RANGE {
                 col.case(&mut lc, &m, &rec, &data, k, false);
             }
@@ -1061,7 +1209,7 @@ fn sweep_codes(col: &Collector, thorough: bool) {
             let cn = Class::from_int(cl).to_string();
             let focus = Focus::new("class", "number", if cn.starts_with("CLASS") { "CLASSnnn" } else { &cn });
             let note = format!("class {cl}");
-            let m = CaseMeta { sweep: "codes-class", focus: &focus, sig_detail: false, note: &note };
+            let m = CaseMeta { sweep: "codes-class", focus: &focus, sig_detail: false, is_name: false, note: &note };
             for k in KIND_RANGE {
                 col.case(&mut lc, &m, &rec, &wire, k, false);
             }
@@ -1085,7 +1233,7 @@ fn sweep_codes(col: &Collector, thorough: bool) {
             let oct = if ks.contains('9') { "number-with-digit-9" } else { "number" };
             let focus = Focus::new("SVCB", "param-key", oct);
             let note = format!("SVCB with parameter key {key}");
-            let m = CaseMeta { sweep: "codes-svcb-key", focus: &focus, sig_detail: false, note: &note };
+            let m = CaseMeta { sweep: "codes-svcb-key", focus: &focus, sig_detail: false, is_name: false, note: &note };
             for k in KIND_RANGE {
                 col.case(&mut lc, &m, &rec, &wire, k, false);
             }
@@ -1111,7 +1259,7 @@ fn sweep_codes(col: &Collector, thorough: bool) {
         let rec = Record::new(owner.clone(), Class::IN, Ttl::from_secs(t), z);
         let focus = Focus::new("ttl", "number", "-");
         let note = format!("TTL {t}");
-        let m = CaseMeta { sweep: "codes-ttl", focus: &focus, sig_detail: false, note: &note };
+        let m = CaseMeta { sweep: "codes-ttl", focus: &focus, sig_detail: false, is_name: false, note: &note };
         for k in KIND_RANGE {
             col.case(&mut lc, &m, &rec, &wire, k, false);
         }
